@@ -366,5 +366,113 @@ theorem storeAll_keys_of_present (t : Nat) (cds : List (List Nat)) (tbl : List (
       rw [isSome_storeChunk]
       simp [hp d' (by simp [hd'])]
 
+/-! ### equality of refcounts and occurrences when no writer is abandoned -/
+
+def RefsEq (s : State K) : Prop := ∀ k, refsOf k s.chunks = occ k s.arts
+
+def Op.isAbandon : Op → Bool
+  | .abandon _ _ => true
+  | _ => false
+
+theorem refsEq_filter {s : State K} (hw : WF h s) (he : RefsEq s) (p : K × CRec → Bool)
+    (hp : ∀ q ∈ s.chunks, p q = false → occ q.1 s.arts = 0) (k : K) :
+    refsOf k (s.chunks.filter p) = occ k s.arts := by
+  have := he k
+  unfold refsOf at this ⊢
+  rw [find_filter p hw.nodup]
+  cases hf : find k s.chunks with
+  | none => rw [hf] at this; simpa using this
+  | some r =>
+    rw [hf] at this
+    simp only [Option.bind_some]
+    by_cases hpk : p (k, r) = true
+    · simpa [hpk] using this
+    · have h0 := hp (k, r) (find_some_mem hf) (by simpa using hpk)
+      simp only at h0
+      simp [hpk, h0]
+
+theorem refsEq_applyOp (hi : HashInj h) (cfg : Cfg) {s : State K} (hw : WF h s) (he : RefsEq s) (op : Op)
+    (hna : op.isAbandon = false) : RefsEq (applyOp h cfg s op) := by
+  have hstream : ∀ t ps, RefsEq (stream h cfg t s ps).1 := by
+    intro t ps k
+    rw [stream_eq]
+    simp only [occ_append, occ_cons, occ_nil, Nat.add_zero, refsOf_storeAll, he k]
+  cases op with
+  | put t d =>
+    simp only [applyOp]
+    rcases put_cases h cfg t s d with ⟨e, _⟩ | e
+    · rw [e]; exact he
+    · rw [e]; exact hstream t [d]
+  | stream t ps => exact hstream t ps
+  | abandon t ps => simp [Op.isAbandon] at hna
+  | delete id =>
+    simp only [applyOp, delete]
+    cases hf : find id s.arts with
+    | none => exact he
+    | some a =>
+      intro k
+      simp only [refsOf_decAll, he k]
+      have := @occ_erase_eq _ _ k _ _ _ hw.idsNodup hf
+      omega
+  | gc mc batch =>
+    intro k
+    simp only [applyOp, gcSel]
+    refine refsEq_filter h hw he _ ?_ k
+    intro q hq hdead
+    have hd : gcDead mc (fun k => batch.any (fun i => decide ((s.chunks.map (·.1))[i]? = some k))) q = true := by
+      simpa using hdead
+    simp only [gcDead, Bool.and_eq_true, decide_eq_true_eq] at hd
+    have hf := mem_find hw.nodup (show (q.1, q.2) ∈ s.chunks from hq)
+    have := hw.refs q.1
+    unfold refsOf at this; rw [hf] at this
+    simp only at this
+    have h0 := hd.1.2
+    omega
+  | gcAll now age =>
+    intro k
+    simp only [applyOp, gc, gcSel]
+    refine refsEq_filter h hw he _ ?_ k
+    intro q hq hdead
+    have hd : gcDead (now - age) (fun _ => true) q = true := by simpa using hdead
+    simp only [gcDead, Bool.and_eq_true, decide_eq_true_eq] at hd
+    have hf := mem_find hw.nodup (show (q.1, q.2) ∈ s.chunks from hq)
+    have := hw.refs q.1
+    unfold refsOf at this; rw [hf] at this
+    simp only at this
+    have h0 := hd.1.2
+    omega
+  | fullGc =>
+    intro k
+    simp only [applyOp, fullGc]
+    refine refsEq_filter h hw he _ ?_ k
+    intro q _ hq
+    rw [contains_referenced] at hq
+    simpa using hq
+  | verify _ => exact he
+  | get _ => exact he
+  | repair =>
+    intro k
+    simp only [applyOp, repair]
+    have hflt := refsEq_filter h hw he (fun q => decide (occ q.1 s.arts ≠ 0)) (by intro q _ hq; simpa using hq) k
+    have hmap : (s.chunks.filter (fun q => decide (occ q.1 s.arts ≠ 0))).map (fixRefs s.arts)
+        = (s.chunks.filter (fun q => decide (occ q.1 s.arts ≠ 0))).map
+            (fun p => (p.1, (fun q : K × CRec => { q.2 with refs := occ q.1 s.arts }) p)) := by
+      apply List.map_congr_left; intro p _; exact fixRefs_eq _ _
+    rw [hmap]
+    unfold refsOf at hflt ⊢
+    rw [find_map_val]
+    cases hf : find k (s.chunks.filter (fun q => decide (occ q.1 s.arts ≠ 0))) with
+    | none => rw [hf] at hflt; simpa using hflt
+    | some r => simp
+
+theorem refsEq_run (hi : HashInj h) (cfg : Cfg) (ops : List Op) {s : State K} (hw : WF h s) (he : RefsEq s)
+    (hna : ∀ op ∈ ops, op.isAbandon = false) : RefsEq (run h cfg s ops) := by
+  induction ops generalizing s with
+  | nil => exact he
+  | cons op ops ih =>
+    simp only [run, List.foldl_cons]
+    exact ih (applyOp_step h hi cfg hw op).1 (refsEq_applyOp h hi cfg hw he op (hna op (by simp)))
+      (fun o ho => hna o (by simp [ho]))
+
 end
 end Neumann.Blob
